@@ -8,6 +8,8 @@ CONSTANTS
   MaxIntents = 2
   TxnId = {"t1"}
   WithFaults = FALSE
+  FailKinds = {"none"}
+  TmoKinds = {"short"}
   WithLifecycle = FALSE
   InitDevice <- CoreInit
 VIEW view
